@@ -11,17 +11,23 @@
      ReaderPull r      one completed call of r.buffer.Pull() in Reader.runInner (under the ring mutex): either an item
                        comes out (its callback starts) or Pull answers false (buffer closed) and the goroutine exits
      ReaderDone r ok   the callback of the item in flight returns (nil / an error: runInner returns the error)
-     AddReader r fs    Stream.AddReader: Reader.start (new ring, goroutine), then under Stream.mutex.Lock: subscribe
+     OnData r m f      Reader.OnData(media m, format f, cb) on a reader that was not added yet: r.onDatas[m][f] = cb
+                       (the inner map is made when r.onDatas[m] is nil); touches the Reader object only
+     AddReader r       Stream.AddReader: Reader.start (new ring, goroutine), then under Stream.mutex.Lock: for every
+                       media m and format f in r.onDatas: Stream.medias[m].formats[f].onDatas[r] = cb
      RemoveBegin r     first half of Stream.RemoveReader, under Stream.mutex.Lock: delete from every onDatas
      RemoveClose r     Reader.stop: r.buffer.Close() (under the ring mutex): pending items are discarded
      RemoveJoin r      Reader.stop: <-r.err returns (only possible once the reader goroutine has left runInner)
      NewSub ss         SubStream.Initialize under Stream.mutex.Lock: Stream.subStream = ss
 
-   Items are pairs (format, unit tag); formats, readers, sub-streams and units are identified by integers. *)
+   A stream format is identified the way the code identifies it: by the pair (media, format) that indexes
+   Stream.medias[m].formats[f] (one media may carry several formats).  Items are pairs ((media, format), unit tag);
+   medias, formats, readers, sub-streams and units are identified by integers. *)
 From Coq Require Import List ZArith Bool Arith.
 Import ListNotations.
 
-Definition item := (Z * Z)%type.
+Definition fkey := (Z * Z)%type.          (* (media, format): the key of Stream.medias[m].formats[f] *)
+Definition item := (fkey * Z)%type.       (* ((media, format), unit tag) *)
 
 (* ---- gortsplib ringbuffer ------------------------------------------------------------------- *)
 Record ring := {
@@ -74,7 +80,7 @@ Inductive phase := Attached | Unsubscribed | Closed | Joined.
 Inductive gstate := Idle | Busy (x : item) | Exited.
 
 Record reader := {
-  r_subs : list Z;          (* keys of r.onDatas *)
+  r_subs : list fkey;       (* the (media, format) pairs of r.onDatas, as the nested loops of AddReader/RemoveReader visit them *)
   r_phase : phase;          (* progress of RemoveReader for this reader *)
   r_buf : ring;
   r_go : gstate;            (* the goroutine of Reader.run *)
@@ -102,21 +108,37 @@ Definition push_rd (x : item) (rd : reader) : reader :=
           r_discarded := S (r_discarded rd); r_delivered := r_delivered rd |}.
 
 (* ---- the stream --------------------------------------------------------------------------------- *)
+Definition memZ (x : Z) (l : list Z) : bool := existsb (Z.eqb x) l.
+
+Definition keyb (a b : fkey) : bool := Z.eqb (fst a) (fst b) && Z.eqb (snd a) (snd b).
+Definition memK (k : fkey) (l : list fkey) : bool := existsb (keyb k) l.
+
+(* Reader.onDatas: map[*Media]map[Format]OnDataFunc, as an association list media -> formats *)
+Definition rmap := list (Z * list Z).
+
+(* Reader.OnData(m, f, cb):  if r.onDatas[m] == nil { r.onDatas[m] = make(...) };  r.onDatas[m][f] = cb *)
+Fixpoint on_data (od : rmap) (m f : Z) : rmap :=
+  match od with
+  | [] => [(m, [f])]
+  | (m', fs) :: t => if Z.eqb m' m then (m', if memZ f fs then fs else fs ++ [f]) :: t
+                     else (m', fs) :: on_data t m f
+  end.
+
+(* for media, formats := range r.onDatas { for format := range formats { ... } } *)
+Definition keys_of (od : rmap) : list fkey := flat_map (fun e => map (fun f => (fst e, f)) (snd e)) od.
+
 Record state := {
-  s_formats : list Z;               (* formats of the stream *)
+  s_formats : list fkey;            (* the (media, format) pairs of the stream *)
   s_qsize : nat;                    (* WriteQueueSize *)
   s_cur : option Z;                 (* Stream.subStream *)
-  s_onDatas : Z -> list Z;          (* per format: readers in streamFormat.onDatas *)
+  s_onDatas : fkey -> list Z;       (* Stream.medias[m].formats[f].onDatas: the readers subscribed to (m, f) *)
+  s_prep : Z -> rmap;               (* r.onDatas of the Reader objects (filled by OnData before AddReader) *)
   s_readers : Z -> option reader;
 }.
 
-Definition init (fmts : list Z) (n : nat) : state :=
-  {| s_formats := fmts; s_qsize := n; s_cur := None; s_onDatas := fun _ => []; s_readers := fun _ => None |}.
-
-Definition memZ (x : Z) (l : list Z) : bool := existsb (Z.eqb x) l.
-
-Fixpoint nodupZ (l : list Z) : bool :=
-  match l with [] => true | a :: r => negb (memZ a r) && nodupZ r end.
+Definition init (fmts : list fkey) (n : nat) : state :=
+  {| s_formats := fmts; s_qsize := n; s_cur := None; s_onDatas := fun _ => []; s_prep := fun _ => [];
+     s_readers := fun _ => None |}.
 
 Definition set_reader (rs : Z -> option reader) (r : Z) (rd : reader) : Z -> option reader :=
   fun k => if Z.eqb k r then Some rd else rs k.
@@ -128,28 +150,34 @@ Definition push_to (x : item) (rs : Z -> option reader) (r : Z) : Z -> option re
   end.
 
 Definition with_readers (s : state) (rs : Z -> option reader) : state :=
-  {| s_formats := s_formats s; s_qsize := s_qsize s; s_cur := s_cur s; s_onDatas := s_onDatas s; s_readers := rs |}.
+  {| s_formats := s_formats s; s_qsize := s_qsize s; s_cur := s_cur s; s_onDatas := s_onDatas s; s_prep := s_prep s;
+     s_readers := rs |}.
+
+(* the fan-out of writeUnitInner for format k *)
+Definition deliver (s : state) (k : fkey) (u : Z) : state :=
+  with_readers s (fold_left (push_to (k, u)) (s_onDatas s k) (s_readers s)).
 
 Definition opt_eqb (a : option Z) (b : Z) : bool := match a with Some x => Z.eqb x b | None => false end.
 
 Inductive label :=
-| Write (ss f u : Z)
+| Write (ss : Z) (k : fkey) (u : Z)
 | ReaderPull (r : Z)
 | ReaderDone (r : Z) (ok : bool)
-| AddReader (r : Z) (fmts : list Z)
+| OnData (r m f : Z)
+| AddReader (r : Z)
 | RemoveBegin (r : Z)
 | RemoveClose (r : Z)
 | RemoveJoin (r : Z)
 | NewSub (ss : Z).
 
 (* None = the step is not enabled in this state (the goroutine that would perform it is blocked, or the call
-   violates a precondition of the API: unknown format, reader added twice) *)
+   violates a precondition of the API: unknown format, reader added twice, OnData after AddReader) *)
 Definition step (s : state) (l : label) : option state :=
   match l with
   | Write ss f u =>
-      if negb (memZ f (s_formats s)) then None
+      if negb (memK f (s_formats s)) then None
       else if opt_eqb (s_cur s) ss
-           then Some (with_readers s (fold_left (push_to (f, u)) (s_onDatas s f) (s_readers s)))
+           then Some (deliver s f u)
            else Some s                                 (* if ss.Stream.subStream != ss { return } *)
   | ReaderPull r =>
       match s_readers s r with
@@ -178,13 +206,23 @@ Definition step (s : state) (l : label) : option state :=
           end
       | None => None
       end
-  | AddReader r fmts =>
+  | OnData r m f =>
       match s_readers s r with
       | Some _ => None
       | None =>
-          if forallb (fun f => memZ f (s_formats s)) fmts && nodupZ fmts then
+          Some {| s_formats := s_formats s; s_qsize := s_qsize s; s_cur := s_cur s; s_onDatas := s_onDatas s;
+                  s_prep := fun x => if Z.eqb x r then on_data (s_prep s r) m f else s_prep s x;
+                  s_readers := s_readers s |}
+      end
+  | AddReader r =>
+      match s_readers s r with
+      | Some _ => None
+      | None =>
+          let fmts := keys_of (s_prep s r) in
+          if forallb (fun f => memK f (s_formats s)) fmts then
             Some {| s_formats := s_formats s; s_qsize := s_qsize s; s_cur := s_cur s;
-                    s_onDatas := fun f => if memZ f fmts then r :: s_onDatas s f else s_onDatas s f;
+                    s_onDatas := fun f => if memK f fmts then r :: s_onDatas s f else s_onDatas s f;
+                    s_prep := s_prep s;
                     s_readers := set_reader (s_readers s) r
                       {| r_subs := fmts; r_phase := Attached; r_buf := rb_new (s_qsize s); r_go := Idle;
                          r_discarded := 0; r_delivered := [] |} |}
@@ -196,8 +234,9 @@ Definition step (s : state) (l : label) : option state :=
           match r_phase rd with
           | Attached =>
               Some {| s_formats := s_formats s; s_qsize := s_qsize s; s_cur := s_cur s;
-                      s_onDatas := fun f => if memZ f (r_subs rd) then remove Z.eq_dec r (s_onDatas s f)
+                      s_onDatas := fun f => if memK f (r_subs rd) then remove Z.eq_dec r (s_onDatas s f)
                                             else s_onDatas s f;
+                      s_prep := s_prep s;
                       s_readers := set_reader (s_readers s) r (with_phase rd Unsubscribed) |}
           | _ => None
           end
@@ -224,7 +263,7 @@ Definition step (s : state) (l : label) : option state :=
       end
   | NewSub ss =>
       Some {| s_formats := s_formats s; s_qsize := s_qsize s; s_cur := Some ss; s_onDatas := s_onDatas s;
-              s_readers := s_readers s |}
+              s_prep := s_prep s; s_readers := s_readers s |}
   end.
 
 Fixpoint run (s : state) (ls : list label) : option state :=
@@ -243,20 +282,25 @@ Inductive subseq {A} : list A -> list A -> Prop :=
 
 (* What the statement of the property calls "the units written by the current publisher to the formats reader r
    subscribed to": read off the labels alone.  The monitor remembers which sub-stream is the current one (last
-   NewSub), whether r is attached (between AddReader r and RemoveBegin r) and with which formats. *)
-Record mon := { m_cur : option Z; m_att : option (list Z); m_off : list item }.
+   NewSub), which (media, format) pairs r asked for (its OnData labels, in call order), and whether r is attached
+   (between AddReader r and RemoveBegin r). *)
+Record mon := { m_cur : option Z; m_pre : list fkey; m_att : option (list fkey); m_off : list item }.
 
-Definition mon_init : mon := {| m_cur := None; m_att := None; m_off := [] |}.
+Definition mon_init : mon := {| m_cur := None; m_pre := []; m_att := None; m_off := [] |}.
 
 Definition mon_step (r : Z) (m : mon) (l : label) : mon :=
   match l with
-  | NewSub ss => {| m_cur := Some ss; m_att := m_att m; m_off := m_off m |}
-  | AddReader r' fmts => if Z.eqb r' r then {| m_cur := m_cur m; m_att := Some fmts; m_off := m_off m |} else m
-  | RemoveBegin r' => if Z.eqb r' r then {| m_cur := m_cur m; m_att := None; m_off := m_off m |} else m
+  | NewSub ss => {| m_cur := Some ss; m_pre := m_pre m; m_att := m_att m; m_off := m_off m |}
+  | OnData r' md f =>
+      if Z.eqb r' r then {| m_cur := m_cur m; m_pre := m_pre m ++ [(md, f)]; m_att := m_att m; m_off := m_off m |} else m
+  | AddReader r' =>
+      if Z.eqb r' r then {| m_cur := m_cur m; m_pre := m_pre m; m_att := Some (m_pre m); m_off := m_off m |} else m
+  | RemoveBegin r' =>
+      if Z.eqb r' r then {| m_cur := m_cur m; m_pre := m_pre m; m_att := None; m_off := m_off m |} else m
   | Write ss f u =>
       match m_att m with
-      | Some fmts => if opt_eqb (m_cur m) ss && memZ f fmts
-                     then {| m_cur := m_cur m; m_att := m_att m; m_off := m_off m ++ [(f, u)] |} else m
+      | Some fmts => if opt_eqb (m_cur m) ss && memK f fmts
+                     then {| m_cur := m_cur m; m_pre := m_pre m; m_att := m_att m; m_off := m_off m ++ [(f, u)] |} else m
       | None => m
       end
   | _ => m
@@ -264,7 +308,10 @@ Definition mon_step (r : Z) (m : mon) (l : label) : mon :=
 
 Definition offered (r : Z) (ls : list label) : list item := m_off (fold_left (mon_step r) ls mon_init).
 
-(* all (format, unit) pairs written by anybody, in write order *)
+(* the (media, format) pairs reader r asked for: its OnData labels *)
+Definition asked (r : Z) (ls : list label) : list fkey := m_pre (fold_left (mon_step r) ls mon_init).
+
+(* all ((media, format), unit) triples written by anybody, in write order *)
 Fixpoint all_writes (ls : list label) : list item :=
   match ls with
   | [] => []
